@@ -21,6 +21,8 @@ pub struct Opts {
     pub word: bool,
     pub xline: bool,
     pub crlf: bool,
+    /// --null-data: NUL is the line terminator (ignored under --crlf, as in HiArgs::searcher)
+    pub nulldata: bool,
     pub multi: bool,
     pub dotall: bool,
     // searcher
@@ -41,6 +43,10 @@ pub struct Opts {
     pub stats: bool,
     pub max: Option<u64>,
     pub sepsearch: bool,
+    /// file names that are not valid UTF-8 (and not ASCII)
+    pub badpath: bool,
+    /// -a/--text: binary detection off, NUL is an ordinary byte of the input
+    pub text: bool,
 }
 
 impl Opts {
@@ -55,6 +61,7 @@ impl Opts {
         b(self.word, "w");
         b(self.xline, "x");
         b(self.crlf, "crlf");
+        b(self.nulldata, "z");
         b(self.multi, "U");
         b(self.dotall, "dotall");
         b(self.invert, "v");
@@ -70,6 +77,8 @@ impl Opts {
         b(self.null, "null");
         b(self.stats, "stats");
         b(self.sepsearch, "ss");
+        b(self.badpath, "bp");
+        b(self.text, "a");
         if self.before > 0 {
             f.push(format!("B{}", self.before));
         }
@@ -111,6 +120,7 @@ impl Opts {
                             "w" => o.word = true,
                             "x" => o.xline = true,
                             "crlf" => o.crlf = true,
+                            "z" => o.nulldata = true,
                             "U" => o.multi = true,
                             "dotall" => o.dotall = true,
                             "v" => o.invert = true,
@@ -126,6 +136,8 @@ impl Opts {
                             "null" => o.null = true,
                             "stats" => o.stats = true,
                             "ss" => o.sepsearch = true,
+                            "bp" => o.badpath = true,
+                            "a" => o.text = true,
                             _ => {
                                 let (h, n) = t.split_at(1);
                                 let n: u64 = n.parse().ok()?;
@@ -164,16 +176,33 @@ impl Opts {
             if self.crlf {
                 b.crlf(true);
             }
+            if self.nulldata {
+                b.line_terminator(Some(0));
+            }
         }
-        b.ban_byte(Some(0));
+        // HiArgs bans NUL unless binary detection is off, and --null-data switches it off
+        if !self.nulldata && !self.text {
+            b.ban_byte(Some(0));
+        }
         b.build(&self.pat).map_err(|e| e.to_string())
     }
 
     pub fn line_term(&self) -> LineTerminator {
         if self.crlf {
             LineTerminator::crlf()
+        } else if self.nulldata {
+            LineTerminator::byte(0)
         } else {
             LineTerminator::byte(b'\n')
+        }
+    }
+
+    /// the byte that ends a line
+    pub fn tb(&self) -> u8 {
+        if !self.crlf && self.nulldata {
+            0
+        } else {
+            b'\n'
         }
     }
 
@@ -196,8 +225,23 @@ impl Opts {
     pub fn term_bytes(&self) -> &'static [u8] {
         if self.crlf {
             b"\r\n"
+        } else if self.nulldata {
+            b"\0"
         } else {
             b"\n"
+        }
+    }
+
+    /// the path of file `i` as bytes: `path_of(i)`, or with --bp a name with an invalid UTF-8 byte and a non-ASCII
+    /// character
+    pub fn path_bytes(&self, i: usize) -> Vec<u8> {
+        if self.badpath {
+            let mut p = format!("d{}/f", i % 2).into_bytes();
+            p.push(0xff);
+            p.extend_from_slice(format!("{}é.txt", i).as_bytes());
+            p
+        } else {
+            path_of(i).into_bytes()
         }
     }
 
@@ -359,7 +403,13 @@ pub fn opt_hex(b: Option<&[u8]>) -> String {
 pub fn sc_sx(o: &Opts, ml_eff: bool) -> String {
     format!(
         "(sc (lt {}) (ml {}) (inv {}) (after {}))",
-        if o.crlf { "crlf" } else { "lf" },
+        if o.crlf {
+            "crlf"
+        } else if o.nulldata {
+            "nul"
+        } else {
+            "lf"
+        },
         ml_eff as u8,
         o.invert as u8,
         if o.passthru { 0 } else { o.after }
@@ -548,10 +598,15 @@ pub fn run_with_timeout(cmd: &mut std::process::Command, scratch: &std::path::Pa
 
 /// lines with their terminators (`\n`)
 pub fn split_lines(input: &[u8]) -> Vec<(usize, &[u8])> {
+    split_lines_t(input, b'\n')
+}
+
+/// lines with their terminators (byte `t`)
+pub fn split_lines_t(input: &[u8], t: u8) -> Vec<(usize, &[u8])> {
     let mut out = vec![];
     let mut s = 0;
     for (i, &b) in input.iter().enumerate() {
-        if b == b'\n' {
+        if b == t {
             out.push((s, &input[s..=i]));
             s = i + 1;
         }
@@ -564,7 +619,22 @@ pub fn split_lines(input: &[u8]) -> Vec<(usize, &[u8])> {
 
 /// 1-based line number of the line starting at `off`
 pub fn line_number_at(input: &[u8], off: usize) -> u64 {
-    1 + input[..off.min(input.len())].iter().filter(|&&b| b == b'\n').count() as u64
+    line_number_at_t(input, off, b'\n')
+}
+
+pub fn line_number_at_t(input: &[u8], off: usize, t: u8) -> u64 {
+    1 + input[..off.min(input.len())].iter().filter(|&&b| b == t).count() as u64
+}
+
+/// content of a line without its terminator, for the terminator of `o`
+pub fn content_o<'a>(o: &Opts, line: &'a [u8]) -> &'a [u8] {
+    if o.tb() == b'\n' {
+        content(line, o.crlf)
+    } else if line.last() == Some(&0) {
+        &line[..line.len() - 1]
+    } else {
+        line
+    }
 }
 
 /// Independent RFC 4648 decoder (table built from the RFC's description, not from ripgrep's alphabet constant).
@@ -619,6 +689,25 @@ pub fn content(line: &[u8], crlf: bool) -> &[u8] {
 
 // ---------------------------------------------------------------- generators
 
+/// sprinkle NUL bytes over an input (searched with -a/--text they are ordinary bytes)
+pub fn with_nuls(rng: &mut Rng, input: &[u8]) -> Vec<u8> {
+    input.iter().map(|&b| if b != b'\n' && b != b'\r' && rng.chance(1, 8) { 0 } else { b }).collect()
+}
+
+/// an input for --null-data made from a `\n`-terminated one: NUL ends the lines, some tabs become `\n` (an
+/// ordinary byte now)
+pub fn to_nul_data(rng: &mut Rng, input: &[u8]) -> Vec<u8> {
+    input
+        .iter()
+        .map(|&b| match b {
+            b'\n' => 0,
+            b'\t' if rng.chance(1, 2) => b'\n',
+            b' ' if rng.chance(1, 6) => b'\n',
+            b => b,
+        })
+        .collect()
+}
+
 pub const SINGLE_PATTERNS: &[&str] = &[
     "a", "b", "ab", "[ab]", "a*", "b*", "^", "$", "^$", r"\b", r"\B", "a|", "|b", "(a|b)+", ".", ".*", "a.c",
     r"\w+", r"\s", r"\bab\b", "a$", "^a", "c$", r"\w*", "x*", "(?:)", "a?", r"[^a]", r"\x{e9}", r"(?-u:\xff)",
@@ -630,6 +719,19 @@ pub const SINGLE_PATTERNS: &[&str] = &[
 pub const MULTI_PATTERNS: &[&str] = &[
     r"a\nb", r"\n", r"a\n?", r"(?s)a.b", r"[^x]", r"\s+", r"b\n\n", r"(?:a\n)?", r"\s*", r"a\n*$", r"(?s).",
     r"\n\n", r"[ab\n]+", r"^\n", r"c\n^a", r"\w+\n\w+", r"a\z", r"\A", r"(?s)a.{3}\z|a", r"(?s)^.*$", r"b$\n",
+];
+
+/// patterns outside the two pools above (own stream `pat`, so that the main streams keep their cases): half word
+/// boundaries, ASCII word boundaries, flags inside the pattern, look-around at the edges of multi-line blocks
+pub const EXTRA_SINGLE: &[&str] = &[
+    r"\b{start-half}a", r"a\b{end-half}", r"\b{start}\w", r"\w\b{end}", r"\b{start-half}", r"\b{end-half}", r"(?-u:\b)a",
+    r"(?-u:\B)", r"\b{start-half}(?:a|)\b{end-half}", r"(?i)É", r"[[:^alpha:]]+", r"(?x) a b ", r"(?-u:\w)+", r"a\r?$",
+    r"(?R)a$", r"\B\z", r"\A\B", r"(?-m)^\B", r"\b{end-half}\z",
+];
+
+pub const EXTRA_MULTI: &[&str] = &[
+    r"\b{start-half}a\n", r"a$\n^b", r"\n\b", r"$\n^", r"(?-m)^a", r"a(?-m)$", r"\Aa\n", r"\n\z", r"(?s:.)\z", r"\bb\n\n",
+    r"\n+\z", r"^$\n", r"\n\B", r"\B\n\B", r"(?R)a$\r?\n", r"\b{end-half}\n\b{start-half}", r"\n(?-m)$", r"(?s).\b",
 ];
 
 fn gen_regex(rng: &mut Rng, depth: usize) -> String {
